@@ -581,6 +581,49 @@ func c09Forget(p *core.Prog, r *core.Report) {
 		}
 		r.Check(ok, "C09-R4", fname(f), "an id present in the table (live or tombstone) is never admitted", p.Pos(f.Pos()), "every path on which the lookup of Header.ID succeeds returns not-admitted", how)
 	}
+	// a frame the receiving relayer cannot queue ends the call there: after a
+	// successful lookup (which may already have stopped the item's timer for a
+	// finishing frame) every "not sent" return passes failRelayItem, otherwise
+	// the item stays live with no timer and pending never returns to zero
+	if f := mustFunc(p, r, "", "Relayer", "Receive"); f != nil {
+		gets := core.CallsIn(f, "relayItems.Get")
+		ok, how := len(gets) == 1, "item lookup not found"
+		if ok {
+			var okV ssa.Value
+			for _, ref := range *gets[0].Value().Referrers() {
+				if ex, isEx := ref.(*ssa.Extract); isEx && ex.Index == 2 {
+					okV = ex
+				}
+			}
+			res := core.ReachAvoiding(f, gets[0].(ssa.Instruction), func(i ssa.Instruction) bool {
+				ret, isRet := i.(*ssa.Return)
+				if !isRet {
+					return false
+				}
+				b, isB := core.ConstBool(core.ReturnValues(ret)[0])
+				return isB && !b
+			}, func(i ssa.Instruction) bool {
+				_, is := core.IsCall(i, "Relayer.failRelayItem")
+				return is
+			}, func(a, b *ssa.BasicBlock) bool {
+				ifi, isIf := a.Instrs[len(a.Instrs)-1].(*ssa.If)
+				if !isIf || a.Succs[0] == a.Succs[1] {
+					return false
+				}
+				_, bf := core.ExpandCond(ifi.Cond, a.Succs[0] == b)
+				for _, x := range bf {
+					if x.V == okV && !x.Pol {
+						return true // the not-found arm has no item to fail
+					}
+				}
+				return false
+			})
+			if res.Found {
+				ok, how = false, "a frame that could not be queued is reported as not sent without failing the receiving side's item: "+p.TrailString(res)
+			}
+		}
+		r.Check(ok, "C09-R4", fname(f), "a frame that cannot be queued fails the receiver's item", p.Pos(f.Pos()), "every not-sent return after the lookup passes failRelayItem", how)
+	}
 	// the timer of a looked-up item is stopped while the table lock is still
 	// held: Delete (write lock) releases the timer to the pool, so a Stop after
 	// the lock is dropped can hit a timer already re-armed for another call
